@@ -115,6 +115,12 @@ MUTANTS += [
          "            if event.callbacks is None and self._count == 0:\n                self._check(event)")]),
     dict(prop='C05', name='mixed-env-check-skipped-for-anyof', edits=[(EVENTS,
          "            if self.env != event.env:", "            if self.env != event.env and evaluate is not Condition.any_events:")]),
+    dict(prop='C05', name='awaited-nested-condition-detached', edits=[(EVENTS,
+         "            if isinstance(event, Condition) and not event._is_watched():",
+         "            if isinstance(event, Condition):")]),
+    dict(prop='C05', name='watched-test-counts-processes-only', edits=[(EVENTS,
+         "        return any(cb != self._build_value for cb in self.callbacks or ())",
+         "        return any(getattr(cb, '__name__', '') == '_resume' for cb in self.callbacks or ())")]),
     dict(prop='C05', name='value-order-sorted-by-completion', edits=[(EVENTS,
          "            self._populate_value(self._value)\n",
          "            self._populate_value(self._value)\n            self._value.events.sort(key=lambda e: getattr(e, '_delay', 0))\n")]),
